@@ -906,11 +906,14 @@ class Parser:
                     else:
                         return int(s, 10)
                 except ValueError:
-                    if len(s) > 1:
-                        if s.lower()[0:2] == '0x':
-                            return int(s, 16)
-                        elif s.lower()[0:2] == '0b':
-                            return int(s, 2)
+                    try:
+                        if len(s) > 1:
+                            if s.lower()[0:2] == '0x':
+                                return int(s, 16)
+                            elif s.lower()[0:2] == '0b':
+                                return int(s, 2)
+                    except ValueError:
+                        pass    # e.g. the hexadecimal float '0x1.8p3'
                 raise CDefError("invalid constant %r" % (s,))
             elif s[0] == "'" and s[-1] == "'" and len(s) == 3:
                 return ord(s[-2])
